@@ -91,6 +91,8 @@ OPS = [
     [('erase', 'Q!')],
     [('erase', 'R#')],
     [('erase', 'S$')],
+    # the array whose header record (40-character name) is larger than a small array above it
+    [('erase', LA)],
     # a statement that is refused (part-way): nothing changes
     [('refused', 'CLEAR ,20000,0', 5)],
     [('refused', 'CLEAR ,,4000 X', 2)],
